@@ -69,6 +69,14 @@ pub fn draw(seed: u64, salt: u64, n: usize, max_len: usize) -> Vec<DnaTree> {
     (0..n).map(|_| Box::new(s.new_tree(&mut r).expect("dna tree")) as DnaTree).collect()
 }
 
+/// the same values as `draw(..)` yields, without keeping the value trees (a tree costs ~150 kB; lanes that never shrink
+/// through proptest - C17's mutants are reported as they are - only need the values)
+pub fn draw_values(seed: u64, salt: u64, n: usize, max_len: usize) -> Vec<Vec<u16>> {
+    let mut r = runner(seed, salt);
+    let s = dna_strategy(max_len);
+    (0..n).map(|_| s.new_tree(&mut r).expect("dna tree").current()).collect()
+}
+
 /// proptest-driven shrinking with an arbitrary (possibly expensive) failure predicate
 pub fn shrink(tree: &mut DnaTree, max_steps: usize, mut still_fails: impl FnMut(&Vec<u16>) -> bool) -> (Vec<u16>, usize) {
     let mut best = tree.current();
